@@ -38,16 +38,27 @@ type beh struct {
 	v, e int
 }
 
+// one TaskOption of the script: kind 't' WithTimeout, 'r' WithRetry, 'd' WithDiscardOnBusy, 'e' WithError
+type topt struct {
+	kind byte
+	val  int64
+}
+
 type taskSpec struct {
-	g        int
-	time     int64
-	T        int64
-	R        int
-	discard  bool
-	cb       bool
-	behs     []beh
-	teff     int64
-	reff     int
+	g    int
+	time int64
+	opts []topt // the option LIST handed to Send, in order
+	behs []beh
+	// the harness's own left fold of the list (what the options mean), used for begin = ctx.Deadline - T and the horizon
+	teff    int64
+	reff    int
+	discard bool
+	cb      bool
+}
+
+type popt struct {
+	kind byte // 's' WithSize, 'c' WithContextBuilder (0 = nil, 1 = builder returning the cancellable base context)
+	val  int64
 }
 
 type park struct {
@@ -56,9 +67,51 @@ type park struct {
 }
 
 type scen struct {
-	n     int
-	parks []park
-	tasks []taskSpec
+	n          int // effective pool size (fold of popts)
+	popts      []popt
+	customCtx  bool
+	baseCancel int64 // -1: never
+	parks      []park
+	tasks      []taskSpec
+}
+
+func parseOpts(tok string) ([]topt, error) {
+	if tok == "-" {
+		return nil, nil
+	}
+	var out []topt
+	for _, f := range strings.Split(tok, ",") {
+		if len(f) < 2 || !strings.ContainsRune("trde", rune(f[0])) {
+			return nil, errors.New("bad option " + f)
+		}
+		v, err := strconv.ParseInt(f[1:], 10, 64)
+		if err != nil {
+			return nil, err
+		}
+		out = append(out, topt{f[0], v})
+	}
+	return out, nil
+}
+
+// foldOpts: createTaskOptions as the harness understands the documented option semantics
+func (t *taskSpec) foldOpts() {
+	t.teff, t.reff, t.discard, t.cb = 365*day, 1, true, false
+	for _, o := range t.opts {
+		switch o.kind {
+		case 't':
+			if o.val > 0 {
+				t.teff = o.val
+			}
+		case 'r':
+			if o.val > 0 {
+				t.reff = int(o.val)
+			}
+		case 'd':
+			t.discard = o.val != 0
+		case 'e':
+			t.cb = o.val != 0
+		}
+	}
 }
 
 type herr struct{ code int }
@@ -70,29 +123,53 @@ const day = int64(24 * time.Hour)
 func parseScen(line string) (*scen, error) {
 	parts := strings.SplitN(line, " | ", 2)
 	h := strings.Fields(parts[0])
-	if len(h) < 2 || h[0] != "n" {
+	if len(h) < 2 {
 		return nil, errors.New("bad head")
 	}
-	sc := &scen{}
-	sc.n, _ = strconv.Atoi(h[1])
-	for i := 2; i < len(h); i++ {
+	sc := &scen{baseCancel: -1}
+	for i := 0; i < len(h); i++ {
 		switch h[i] {
 		case "old":
-		case "park":
+		case "n", "popts", "basecancel", "park":
 			i++
 			if i >= len(h) {
-				return nil, errors.New("bad park")
+				return nil, errors.New("bad head")
 			}
-			f := strings.Split(h[i], ":")
-			if len(f) != 3 {
-				return nil, errors.New("bad park")
+			switch h[i-1] {
+			case "n":
+				v, _ := strconv.ParseInt(h[i], 10, 64)
+				sc.popts = append(sc.popts, popt{'s', v})
+			case "popts":
+				for _, f := range strings.Split(h[i], ",") {
+					if len(f) < 2 || (f[0] != 's' && f[0] != 'c') {
+						return nil, errors.New("bad pool option " + f)
+					}
+					v, _ := strconv.ParseInt(f[1:], 10, 64)
+					sc.popts = append(sc.popts, popt{f[0], v})
+				}
+			case "basecancel":
+				sc.baseCancel, _ = strconv.ParseInt(h[i], 10, 64)
+			case "park":
+				f := strings.Split(h[i], ":")
+				if len(f) != 3 {
+					return nil, errors.New("bad park")
+				}
+				st, _ := strconv.Atoi(f[0])
+				o, _ := strconv.Atoi(f[1])
+				u, _ := strconv.ParseInt(f[2], 10, 64)
+				sc.parks = append(sc.parks, park{st, o, u})
 			}
-			s, _ := strconv.Atoi(f[0])
-			o, _ := strconv.Atoi(f[1])
-			u, _ := strconv.ParseInt(f[2], 10, 64)
-			sc.parks = append(sc.parks, park{s, o, u})
 		default:
 			return nil, errors.New("bad head word " + h[i])
+		}
+	}
+	sc.n = 1
+	for _, o := range sc.popts {
+		if o.kind == 's' && o.val > 0 {
+			sc.n = int(o.val)
+		}
+		if o.kind == 'c' && o.val != 0 {
+			sc.customCtx = true
 		}
 	}
 	if len(parts) < 2 {
@@ -103,17 +180,29 @@ func parseScen(line string) (*scen, error) {
 		if len(w) == 0 {
 			continue
 		}
-		if len(w) != 7 {
+		var t taskSpec
+		var behTok string
+		switch len(w) {
+		case 4:
+			os, err := parseOpts(w[2])
+			if err != nil {
+				return nil, err
+			}
+			t.opts, behTok = os, w[3]
+		case 7: // legacy form: every option once
+			T, _ := strconv.ParseInt(w[2], 10, 64)
+			R, _ := strconv.ParseInt(w[3], 10, 64)
+			t.opts = []topt{{'t', T}, {'r', R}, {'d', int64(b2i(w[4] != "0"))}}
+			if w[5] != "0" {
+				t.opts = append(t.opts, topt{'e', 1})
+			}
+			behTok = w[6]
+		default:
 			return nil, errors.New("bad task")
 		}
-		var t taskSpec
 		t.g, _ = strconv.Atoi(w[0])
 		t.time, _ = strconv.ParseInt(w[1], 10, 64)
-		t.T, _ = strconv.ParseInt(w[2], 10, 64)
-		t.R, _ = strconv.Atoi(w[3])
-		t.discard = w[4] != "0"
-		t.cb = w[5] != "0"
-		for _, bs := range strings.Split(w[6], ",") {
+		for _, bs := range strings.Split(behTok, ",") {
 			f := strings.Split(bs, ":")
 			if len(f) != 4 {
 				return nil, errors.New("bad beh")
@@ -125,14 +214,7 @@ func parseScen(line string) (*scen, error) {
 			b.e, _ = strconv.Atoi(f[3])
 			t.behs = append(t.behs, b)
 		}
-		t.teff = t.T
-		if t.T <= 0 {
-			t.teff = 365 * day
-		}
-		t.reff = t.R
-		if t.R <= 0 {
-			t.reff = 1
-		}
+		t.foldOpts()
 		sc.tasks = append(sc.tasks, t)
 	}
 	return sc, nil
@@ -340,8 +422,32 @@ func showErrOf(e error, invs []*invRec) string {
 
 func runScen(sc *scen) string {
 	r := &runState{sc: sc, obs: make([]taskObs, len(sc.tasks))}
-	pool := ants.NewPool(ants.WithSize(sc.n))
+	baseCtx, baseCancel := context.WithCancel(context.Background())
+	defer baseCancel()
+	var popts []ants.PoolOption
+	for _, o := range sc.popts {
+		switch o.kind {
+		case 's':
+			popts = append(popts, ants.WithSize(int(o.val)))
+		case 'c':
+			if o.val != 0 {
+				popts = append(popts, ants.WithContextBuilder(func() context.Context { return baseCtx }))
+			} else {
+				popts = append(popts, ants.WithContextBuilder(nil))
+			}
+		}
+	}
+	pool := ants.NewPool(popts...)
 	r.start = time.Now()
+	if sc.baseCancel >= 0 {
+		at := sc.baseCancel
+		go func() {
+			if d := at - r.rel(); d > 0 {
+				time.Sleep(time.Duration(d))
+			}
+			baseCancel()
+		}()
+	}
 	curMu.Lock()
 	cur = r
 	curMu.Unlock()
@@ -361,6 +467,9 @@ func runScen(sc *scen) string {
 		if p.until > maxT {
 			maxT = p.until
 		}
+	}
+	if sc.baseCancel > maxT {
+		maxT = sc.baseCancel
 	}
 	horizon += maxT
 
@@ -420,13 +529,27 @@ func runScen(sc *scen) string {
 					r.mu.Unlock()
 					return v, e
 				}
-				opts := []ants.TaskOption{ants.WithTimeout(time.Duration(t.T)), ants.WithRetry(t.R), ants.WithDiscardOnBusy(t.discard)}
-				if t.cb {
-					opts = append(opts, ants.WithError(func(err error) {
-						r.mu.Lock()
-						r.obs[k].onerr = append(r.obs[k].onerr, fmt.Sprintf("%s@%d", showErrOf(err, r.obs[k].invs), r.rel()))
-						r.mu.Unlock()
-					}))
+				onErr := func(err error) {
+					r.mu.Lock()
+					r.obs[k].onerr = append(r.obs[k].onerr, fmt.Sprintf("%s@%d", showErrOf(err, r.obs[k].invs), r.rel()))
+					r.mu.Unlock()
+				}
+				var opts []ants.TaskOption
+				for _, o := range t.opts {
+					switch o.kind {
+					case 't':
+						opts = append(opts, ants.WithTimeout(time.Duration(o.val)))
+					case 'r':
+						opts = append(opts, ants.WithRetry(int(o.val)))
+					case 'd':
+						opts = append(opts, ants.WithDiscardOnBusy(o.val != 0))
+					case 'e':
+						if o.val != 0 {
+							opts = append(opts, ants.WithError(onErr))
+						} else {
+							opts = append(opts, ants.WithError(nil))
+						}
+					}
 				}
 				r.mu.Lock()
 				r.obs[k].sent = true
